@@ -8,8 +8,11 @@ import (
 
 	"github.com/btcsuite/btcd/btcec/v2"
 	"github.com/btcsuite/btcd/chainhash/v2"
+	"github.com/btcsuite/btcd/wire/v2"
 
 	"github.com/lightningnetwork/lnd/channeldb"
+	"github.com/lightningnetwork/lnd/chanstate"
+	"github.com/lightningnetwork/lnd/fn/v2"
 	"github.com/lightningnetwork/lnd/lntypes"
 	"github.com/lightningnetwork/lnd/lnwallet"
 	"github.com/lightningnetwork/lnd/lnwire"
@@ -448,6 +451,125 @@ func (w *World) probeLiveReest(i int) error {
 	for _, r := range msgs {
 		if rev, ok := r.(*lnwire.RevokeAndAck); ok {
 			w.onRevoke(i, rev, true)
+		}
+	}
+	return nil
+}
+
+// maskFields removes the named space-delimited fields ("status…", "scid…") from a
+// projection so that two projections can be compared "except for" them.
+func maskFields(s string, names ...string) string {
+	parts := strings.Split(s, " ")
+	out := parts[:0]
+	for _, f := range parts {
+		drop := false
+		for _, n := range names {
+			if strings.HasPrefix(f, n) {
+				drop = true
+			}
+		}
+		if !drop {
+			out = append(out, f)
+		}
+	}
+	return strings.Join(out, " ")
+}
+
+// probeSideWriters: through the handle of party i's channel that was loaded when
+// the world was created, call every auxiliary channeldb writer; after each, the
+// channel read back from disk must equal the channel read before the call except
+// for the field the writer sets. In lnd these writers are called by the chain
+// watcher, the channel arbitrator and the funding manager, each of which holds
+// its own handle that is as old as the last start-up, while the link's handle
+// moves on. The world is dead afterwards (terminal probe).
+func (w *World) probeSideWriters(i int) error {
+	w.dead = true
+	p := w.pt[i]
+	st := p.stale
+	if st == nil {
+		return nil
+	}
+	fresh := func() (*channeldb.OpenChannel, bool) {
+		chans, err := p.db.ChannelStateDB().FetchOpenChannels(p.identity)
+		if err != nil || len(chans) != 1 {
+			w.violate("side:disk-unreadable", fmt.Sprintf("%s: cannot read channel from disk: %d channels, %v", p.name, len(chans), err))
+			return nil, false
+		}
+		return chans[0], true
+	}
+	base, ok := fresh()
+	if !ok {
+		return nil
+	}
+	mask := []string{"status", "scid"}
+	ref := maskFields(projection(base), mask...)
+	// The durable state must also be what the live object mirrors.
+	if live := maskFields(projection(p.ch.State()), mask...); live != ref {
+		w.violate("side:live-differs-from-disk", fmt.Sprintf("%s: live channel state differs from the state on disk before any side writer ran:\n live %s\n disk %s", p.name, clip(live), clip(ref)))
+		return nil
+	}
+	dummyTx := wire.NewMsgTx(2)
+	dummyTx.AddTxIn(&wire.TxIn{PreviousOutPoint: base.FundingOutpoint})
+	dummyTx.AddTxOut(&wire.TxOut{Value: 1000, PkScript: []byte{0x00, 0x14, 1, 2, 3, 4, 5, 6, 7, 8, 9, 10, 11, 12, 13, 14, 15, 16, 17, 18, 19, 20}})
+	scid := lnwire.NewShortChanIDFromInt(uint64(700_000)<<40 | 7<<16 | 1)
+	writers := []struct {
+		name string
+		call func() error
+		own  []string // projection fields the writer is documented to set
+	}{
+		{"MarkCloseConfirmationHeight", func() error { return st.MarkCloseConfirmationHeight(fn.Some(uint32(700_123))) }, nil},
+		{"ResetCloseConfirmationHeight", func() error { return st.ResetCloseConfirmationHeight() }, nil},
+		{"MarkConfirmationHeight", func() error { return st.MarkConfirmationHeight(700_000) }, nil},
+		{"MarkScidAliasNegotiated", func() error { return st.MarkScidAliasNegotiated() }, []string{"type"}},
+		{"MarkRealScid", func() error { return st.MarkRealScid(scid) }, nil},
+		{"MarkAsOpen", func() error { return st.MarkAsOpen(scid) }, nil},
+		{"ApplyChanStatus", func() error { return st.ApplyChanStatus(channeldb.ChanStatusRemoteCloseInitiator) }, nil},
+		{"ClearChanStatus", func() error { return st.ClearChanStatus(channeldb.ChanStatusRemoteCloseInitiator) }, nil},
+		{"MarkShutdownSent", func() error {
+			return st.MarkShutdownSent(chanstate.NewShutdownInfo(lnwire.DeliveryAddress(dummyTx.TxOut[0].PkScript), true))
+		}, nil},
+		{"MarkDataLoss", func() error { return st.MarkDataLoss(p.identity) }, nil},
+		{"MarkCoopBroadcasted", func() error { return st.MarkCoopBroadcasted(dummyTx, lntypes.Local) }, nil},
+		{"MarkCommitmentBroadcasted", func() error { return st.MarkCommitmentBroadcasted(dummyTx, lntypes.Remote) }, nil},
+		{"MarkBorked", func() error { return st.MarkBorked() }, nil},
+	}
+	for _, wr := range writers {
+		var err error
+		func() {
+			defer func() {
+				if v := recover(); v != nil {
+					err = fmt.Errorf("panic: %v", v)
+				}
+			}()
+			err = wr.call()
+		}()
+		w.Stats.SideWrites.Add(1)
+		if err != nil {
+			// a writer may refuse (e.g. status not applicable); what it must not
+			// do is change anything else.
+			w.Stats.SideRefused.Add(1)
+		}
+		after, ok := fresh()
+		if !ok {
+			return nil
+		}
+		m := append(append([]string{}, mask...), wr.own...)
+		got, want := maskFields(projection(after), m...), maskFields(ref, m...)
+		ref = maskFields(projection(after), mask...)
+		if got != want {
+			w.violate("side:"+wr.name+":clobbers-channel-state", fmt.Sprintf("%s: %s through a handle loaded at start-up changed more than its own field on disk (commit heights before: local %d remote %d; after: local %d remote %d):\n before %s\n after  %s", p.name, wr.name, base.LocalCommitment.CommitHeight, base.RemoteCommitment.CommitHeight, after.LocalCommitment.CommitHeight, after.RemoteCommitment.CommitHeight, clip(want), clip(got)))
+			return nil
+		}
+		// what the stale handle itself now reads back (the chain watcher calls
+		// these right after marking the close height)
+		if rs, err := st.RemoteRevocationStore(); err == nil && base.RevocationStore != nil {
+			var a, b bytes.Buffer
+			_ = rs.Encode(&a)
+			_ = base.RevocationStore.Encode(&b)
+			if !bytes.Equal(a.Bytes(), b.Bytes()) {
+				w.violate("side:"+wr.name+":revocation-store-differs", fmt.Sprintf("%s: RemoteRevocationStore() read through the start-up handle after %s differs from the store on disk before", p.name, wr.name))
+				return nil
+			}
 		}
 	}
 	return nil
